@@ -174,7 +174,7 @@ def _run_xfer(case):
     labels = ['xfer', 'framing:' + framing, 'kind:' + kind, 'exception-reply' if case['exception'] else 'normal-reply']
     peer = ServerPeer(framing, case['uid'], case['exception'])
     discs = []
-    if framing == 'binary' and any(b in (0x7B, 0x7D) for b in refframe.build(framing, case['uid'], specpdu.encode(kind, f))[1:-1]):
+    if framing == 'binary' and refframe.binary_fragile(refframe.build(framing, case['uid'], specpdu.encode(kind, f))):
         return Outcome([], labels + ['excluded-binary-delimiter'], False)
     with transports.World(peer) as w:
         try:
@@ -196,7 +196,7 @@ def _run_xfer(case):
     if not peer.replies:
         return Outcome([Disc('no-reply-produced', '%s %s %s: the server path produced no reply (request frame %r)' % (framing, kind, _brief(f), [x.hex()[:40] for x in peer.written]))], labels, True)
     reply = peer.replies[0]
-    if framing == 'binary' and any(b in (0x7B, 0x7D) for b in reply[1:-1] + peer.written[0][1:-1]):
+    if framing == 'binary' and (refframe.binary_fragile(reply) or refframe.binary_fragile(peer.written[0])):
         return Outcome([], labels + ['excluded-binary-delimiter'], False)
     reads = list(conn.read_requests)
     asked = sum(a for a, r in reads)
